@@ -490,6 +490,7 @@ pub struct GenParams {
   pub specials: bool,
   pub attrs: bool,
   pub exotic_forms: bool,
+  pub source_maps: bool,
 }
 
 impl Default for GenParams {
@@ -507,6 +508,7 @@ impl Default for GenParams {
       specials: true,
       attrs: true,
       exotic_forms: true,
+      source_maps: true,
     }
   }
 }
@@ -542,7 +544,7 @@ fn raw_item(p: &GenParams) -> impl Strategy<Value = RawItem> {
     })
 }
 
-fn raw_entry(p: &GenParams) -> impl Strategy<Value = RawEntry> {
+pub fn raw_entry(p: &GenParams) -> impl Strategy<Value = RawEntry> {
   let items2 = proptest::collection::vec(raw_item(p), 0..=p.max_items);
   let src = (
     0..10u8,
@@ -654,7 +656,7 @@ fn build_item(p: &GenParams, referrer: &str, lang: Lang, r: &RawItem) -> Item {
     16 if lang.is_jsx() => Item::JsxImportSource { spec },
     17 if lang.is_jsx() => Item::JsxImportSourceTypes { spec },
     18 if !ts => Item::JsDocImport { spec },
-    19 => Item::SourceMapUrl { spec },
+    19 if p.source_maps => Item::SourceMapUrl { spec },
     20 => Item::Require { spec },
     21 => Item::DynamicOpaque,
     _ => Item::Import {
@@ -918,22 +920,11 @@ pub fn resolve_key(referrer: &str, spec: &str) -> String {
   format!("bare:{spec}")
 }
 
-pub fn build_world(p: &GenParams, raw: &RawWorld) -> World {
-  let mut world = World::default();
-  let mut present: Vec<String> = Vec::new();
-  for (slot, _) in &raw.entries {
-    let url = POOL[p.pool[idx(*slot, p.pool.len())]].to_string();
-    if !present.contains(&url) {
-      present.push(url);
-    }
-  }
-  PRESENT.with(|pr| *pr.borrow_mut() = present);
-  for (slot, re) in &raw.entries {
-    let url = POOL[p.pool[idx(*slot, p.pool.len())]].to_string();
-    if world.entries.contains_key(&url) {
-      continue;
-    }
-    let natural = lang_for(&url);
+
+/// Builds one entry for `url` from its raw description.
+pub fn build_one(p: &GenParams, url: &str, re: &RawEntry) -> Entry {
+  let url = url.to_string();
+  let natural = lang_for(&url);
     let entry = match re {
       RawEntry::Src {
         lang_twist,
@@ -1006,6 +997,25 @@ pub fn build_world(p: &GenParams, raw: &RawWorld) -> World {
         }
       }
     };
+  entry
+}
+
+pub fn build_world(p: &GenParams, raw: &RawWorld) -> World {
+  let mut world = World::default();
+  let mut present: Vec<String> = Vec::new();
+  for (slot, _) in &raw.entries {
+    let url = POOL[p.pool[idx(*slot, p.pool.len())]].to_string();
+    if !present.contains(&url) {
+      present.push(url);
+    }
+  }
+  PRESENT.with(|pr| *pr.borrow_mut() = present);
+  for (slot, re) in &raw.entries {
+    let url = POOL[p.pool[idx(*slot, p.pool.len())]].to_string();
+    if world.entries.contains_key(&url) {
+      continue;
+    }
+    let entry = build_one(p, &url, re);
     world.entries.insert(url, entry);
   }
   unify_attrs(&mut world, &[]);
